@@ -318,7 +318,7 @@ def run_iff(cx):
     rng = cx.sub_rng("iff")
     tab3, n3 = env_table(ENV3)
     tabp, np_ = env_table(ENVP)
-    maxtok = cx.n(5, 7)
+    maxtok = cx.n(6, 7)
     cx.rule("if-feature: ALL token strings of <= %d tokens over {a,b,c,not,and,or,(,)} (canonical spelling; valid and invalid) through "
             "lys_compile_iffeature, every accepted prefix code evaluated under all 8 assignments against the RFC reference; all grammatical ones "
             "also end-to-end (lys_parse + node existence) under all 8 assignments; random deeper expressions with RFC whitespace, prefixed and "
